@@ -77,6 +77,8 @@ def check(module, cfg, tag, workers=16, coverage=False, dump=False, env=None, ti
           view_deadlock=False, extra=(), allow_incomplete=False):
     """Exhaustive model checking of spec/<module>.tla with spec/<cfg>."""
     wd = _workdir(tag)
+    if dump:
+        workers = 1         # a level-bounded graph explored by racing workers differs from run to run; dumps are small
     args = ['tlc', '-workers', str(workers), '-metadir', os.path.join(wd, 'meta'), '-noGenerateSpecTE',
             '-config', os.path.join(SPEC, cfg)]
     if coverage:
@@ -199,6 +201,11 @@ def graph_cover(path, max_paths=None, rng=None):
     behaviour are not repeated."""
     from collections import deque, defaultdict
     inits, nodes, edges = parse_dot(path)
+    # TLC writes the dump in the order its workers reach the states: make the cover independent of it
+    # (and of the node ids, which are fingerprints under a polynomial TLC picks at random per run)
+    canon = {i: repr(sorted((k, repr(v)) for k, v in st.items())) for i, st in nodes.items()}
+    inits = sorted(inits, key=lambda i: canon[i])
+    edges = sorted(set(edges), key=lambda e: (canon[e[0]], e[2], canon[e[1]]))
     out = defaultdict(list)
     for s, d, l in edges:
         out[s].append((d, l))
